@@ -1044,6 +1044,113 @@ class World:
         return proc
 
 
+    def run_forked(self, body, name="", fault=None, pid=None, timeout=900):
+        """run_solo in a forked child of this interpreter.
+
+        A simulated process run by run_solo shares the interpreter with every
+        other one: what the code under test keeps in module globals (memo
+        tables, class attributes, the logging tree, registered callbacks)
+        survives from one "process" into the next, which a real process
+        boundary does not allow.  Here the process really is one: it starts
+        from this interpreter's state as it is now, and whatever it does to
+        that state dies with it.  Durable state (the sandbox on tmpfs) is
+        shared; the child's trace tail, clock and counters are merged back.
+        The body's return value must be picklable."""
+        import pickle
+        import types
+
+        if pid is None:
+            pid = self._next_pid
+            self._next_pid += 1
+        t0 = len(self.trace)
+        rfd, wfd = os.pipe()
+        child = os.fork()
+        if child == 0:
+            status = 1
+            try:
+                _REAL["os_close"](rfd)
+                try:
+                    proc = self.run_solo(body, name=name, fault=fault, collect=True, pid=pid)
+                    kind, val = proc.outcome
+                    if kind == "raised":
+                        val = "".join(traceback.format_exception_only(type(val), val)).strip()
+                    out = {
+                        "outcome": (kind, val), "nevents": proc.nevents, "crashed": proc.crashed,
+                        "trace": self.trace[t0:], "clock": self.clock, "sim_seconds": self.sim_seconds,
+                        "events": self.events, "probes": dict(self.probes), "faults_fired": dict(self.faults_fired),
+                        "fault_fired": bool(fault is not None and fault.fired), "fault_where": getattr(fault, "where", None),
+                    }
+                    blob = pickle.dumps(out)
+                except BaseException as e:  # noqa: BLE001 - reported to the parent as a harness error
+                    blob = pickle.dumps({"harness_error": "".join(traceback.format_exception(e))})
+                with _REAL["io_open"](wfd, "wb") as fh:
+                    fh.write(blob)
+                status = 0
+            finally:
+                os._exit(status)
+        _REAL["os_close"](wfd)
+        chunks = []
+        with _REAL["io_open"](rfd, "rb") as fh:
+            while True:
+                c = fh.read(1 << 20)
+                if not c:
+                    break
+                chunks.append(c)
+        _pid, st = os.waitpid(child, 0)
+        if not chunks:
+            raise HarnessError(f"forked simulated process {name!r} died without a result (wait status {st})")
+        out = pickle.loads(b"".join(chunks))
+        if "harness_error" in out:
+            raise HarnessError("in forked simulated process: " + out["harness_error"])
+        self.trace.extend(out["trace"])
+        self.clock, self.sim_seconds, self.events = out["clock"], out["sim_seconds"], out["events"]
+        self.probes.clear()
+        self.probes.update(out["probes"])
+        self.faults_fired.clear()
+        self.faults_fired.update(out["faults_fired"])
+        if fault is not None and out["fault_fired"]:
+            fault.fired, fault.where = True, out["fault_where"]
+        self.probe("forked_simulated_processes")
+        return types.SimpleNamespace(pid=pid, name=name, outcome=out["outcome"], nevents=out["nevents"],
+                                     crashed=out["crashed"], zombie=out["crashed"], trace_start=t0)
+
+
+def fork_call(fn):
+    """fn() in a forked child; its picklable result (or the exception it
+    raised, as ('error', text)) comes back over a pipe.  For computations that
+    must not see, or leave, state in this interpreter - e.g. a reference result
+    obtained from the code under test."""
+    import pickle
+
+    rfd, wfd = os.pipe()
+    child = os.fork()
+    if child == 0:
+        status = 1
+        try:
+            _REAL["os_close"](rfd)
+            try:
+                blob = pickle.dumps(("ok", fn()))
+            except BaseException as e:  # noqa: BLE001
+                blob = pickle.dumps(("error", "".join(traceback.format_exception_only(type(e), e)).strip()))
+            with _REAL["io_open"](wfd, "wb") as fh:
+                fh.write(blob)
+            status = 0
+        finally:
+            os._exit(status)
+    _REAL["os_close"](wfd)
+    chunks = []
+    with _REAL["io_open"](rfd, "rb") as fh:
+        while True:
+            c = fh.read(1 << 20)
+            if not c:
+                break
+            chunks.append(c)
+    os.waitpid(child, 0)
+    if not chunks:
+        raise HarnessError("forked computation died without a result")
+    return pickle.loads(b"".join(chunks))
+
+
 def active_world():
     return _ACTIVE
 
